@@ -164,6 +164,22 @@ def rt_oracle(c, stats):
         d = [(x, y) for x, y in zip(t1.split("\n"), t2.split("\n")) if x != y]
         raise Violation("rewrite-differs", "writing the re-read structure gives different text although all atoms were inside "
                         "the cell, e.g. %r vs %r" % (d[0] if d else ("", "")))
+    # history on one object: edit the object that has just been written and write it again
+    if n >= 1 and fract:
+        C = np.array(spec["cell"], float)
+        newf = np.array([0.123, 0.456, 0.789])
+        a.positions[0] = newf @ C
+        a.charges[0] = 0.75
+        try:
+            t5 = save_cif(a, fract)
+            b5 = load_cif(t5)
+        except Exception as e:
+            raise Violation("exception-in-save", "second write after editing the object: %s: %r" % (type(e).__name__, e))
+        f5 = geom.frac(b5.cell, np.asarray(b5.positions, float))[0]
+        d5 = np.abs(f5 - newf)
+        if np.minimum(d5, 1 - d5).max() > 5.1e-5 or abs(float(b5.charges[0]) - 0.75) > 1e-9:
+            raise Violation("second-write-stale", "the object was edited (position and charge of atom 0) after a first write; the "
+                            "second file reads back fractional %r charge %r" % (f5.tolist(), float(b5.charges[0])))
     # independent reader
     import ase.io
     try:
